@@ -36,6 +36,15 @@ Proof.
 Qed.
 Print Assumptions C27_progress.
 
+(* The order of the two halves of wake_by_ref is essential and is part of the model (WNotify is
+   only enabled after the waker's WStore).  For the opposite order -- task_waker.wake() before
+   can_start_tick.store(true) -- Inv1 is false: a reachable deadlock with an owed tick. *)
+Theorem C27_notify_first_refuted :
+  exists s, wreach_nf s /\ owed s = true /\ stuck s = true /\ flag s = true /\
+            runner_enabled s = false /\ mid s = 0.
+Proof. exact notify_first_refuted. Qed.
+Print Assumptions C27_notify_first_refuted.
+
 (* ------------------------------------------------------------------ non-vacuity / windows *)
 
 (* a reachable state that owes a tick while the runner is parked (the notification is pending) *)
